@@ -1462,12 +1462,9 @@ Proof.
     cbn [snd] in Hi. subst l. destruct (match aget str_eqb (pending m) ns with Some l => l | None => [] end); discriminate.
 Qed.
 
-Lemma MI_disc n m sid ns : MI n m -> MI n (mgr_disconnect m sid ns).
+Lemma MI_release n m1 sid ns : MI n m1 -> MI n (disc_release m1 sid ns).
 Proof.
-  intro H. unfold mgr_disconnect. destruct (ns_rooms m ns) as [rm|]; [|exact H].
-  set (names := map fst (filter _ rm)).
-  pose proof (MI_fold_leave n (fun _ : pv => sid) (fun r => r) ns names m H) as H1. cbn beta in H1.
-  set (m1 := fold_left (fun m r => leave_room m sid ns r) names m) in *.
+  intro H1. unfold disc_release.
   set (m2 := mkMgr (rooms m1) (pending m1) (adel str_eqb (callbacks m1) sid)).
   assert (H2 : MI n m2).
   { pose proof H1 as (_ & (_ & Hp & Hc) & Hpn & _).
@@ -1486,6 +1483,13 @@ Proof.
     destruct (match aget str_eqb (pending m2) ns with Some l => remove_first l sid | None => [] end) as [|y r] eqn:E.
     + eapply Hpn. eapply in_adel. exact Hin.
     + destruct (in_aset _ _ _ _ _ Hin) as [Hi|Hi]; [eapply Hpn; exact Hi|]. cbn [snd] in Hi. subst. discriminate.
+Qed.
+Lemma MI_disc n m sid ns : MI n m -> MI n (mgr_disconnect m sid ns).
+Proof.
+  intro H. unfold mgr_disconnect. destruct (ns_rooms m ns) as [rm|]; [|apply MI_release; exact H].
+  set (names := map fst (filter _ rm)).
+  pose proof (MI_fold_leave n (fun _ : pv => sid) (fun r => r) ns names m H) as H1. cbn beta in H1.
+  apply MI_release. exact H1.
 Qed.
 
 Lemma MI_ack n m sid cb : MI n m -> below n sid -> MI n (fst (generate_ack_id m sid cb)).
@@ -1801,6 +1805,17 @@ Proof.
   destruct (sid_from_eio (mg s0) eio n); [rewrite H2|]; reflexivity.
 Qed.
 
+Lemma disc_release_pending_frame m1 sid n n' :
+  n <> n' -> aget str_eqb (pending (disc_release m1 sid n)) n' = aget str_eqb (pending m1) n'.
+Proof.
+  intro Hne. unfold disc_release.
+  destruct (is_pending _ sid n); cbn [pending rooms callbacks]; [|reflexivity].
+  destruct (aget str_eqb (pending m1) n) as [l0|].
+  - destruct (remove_first l0 sid).
+    + rewrite saget_adel_other by exact Hne. reflexivity.
+    + rewrite saget_aset_other by exact Hne. reflexivity.
+  - rewrite saget_adel_other by exact Hne. reflexivity.
+Qed.
 Lemma disc_state_pending_frame s sid n n' :
   n <> n' -> aget str_eqb (pending (mg (disc_state s sid n))) n' = aget str_eqb (pending (mg s)) n'.
 Proof.
@@ -1808,18 +1823,12 @@ Proof.
   set (m0 := fst (pre_disconnect (mg s) sid n)).
   assert (H0 : aget str_eqb (pending m0) n' = aget str_eqb (pending (mg s)) n').
   { unfold m0. rewrite pre_disconnect_pending. apply saget_aset_other. exact Hne. }
-  destruct (ns_rooms m0 n) as [rm|]; [|exact H0].
+  destruct (ns_rooms m0 n) as [rm|]; [|rewrite disc_release_pending_frame by exact Hne; exact H0].
   set (names := map fst (filter _ rm)).
   assert (H1 : pending (fold_left (fun m r => leave_room m sid n r) names m0) = pending m0).
   { generalize m0. induction names as [|r names IH]; intro m; cbn [fold_left]; [reflexivity|].
     rewrite IH. apply leave_room_pending. }
-  set (m1 := fold_left _ names m0) in *.
-  destruct (is_pending _ sid n); cbn [pending rooms callbacks]; [|rewrite H1; exact H0].
-  rewrite H1. destruct (aget str_eqb (pending m0) n) as [l0|].
-  - destruct (remove_first l0 sid).
-    + rewrite saget_adel_other by exact Hne. exact H0.
-    + rewrite saget_aset_other by exact Hne. exact H0.
-  - rewrite saget_adel_other by exact Hne. exact H0.
+  rewrite disc_release_pending_frame by exact Hne. rewrite H1. exact H0.
 Qed.
 
 Lemma forM_keep_cons {A} (f : A -> SM unit) x r first s :
@@ -2302,7 +2311,8 @@ Lemma mgr_disconnect_members m sid ns :
   MOK m -> ns_members (mgr_disconnect m sid ns) ns = adel str_eqb (ns_members m ns) sid.
 Proof.
   intro Hm. unfold mgr_disconnect. destruct (ns_rooms m ns) as [rm|] eqn:Hns.
-  2:{ unfold ns_members. rewrite room_of_none, Hns. reflexivity. }
+  2:{ unfold ns_members. rewrite !room_of_none. unfold ns_rooms. rewrite disc_release_rooms'.
+      fold (ns_rooms m ns). rewrite Hns. reflexivity. }
   fold (disc_names rm sid).
   assert (Hfold := fold_leave_members sid ns (disc_names rm sid) m Hm).
   set (m1 := fold_left _ (disc_names rm sid) m) in *.
@@ -2317,7 +2327,7 @@ Proof.
     assert (existsb (fun r => pv_eqb r PNone) (disc_names rm sid) = true).
     { apply existsb_exists. exists PNone. split; [exact Hin|reflexivity]. }
     congruence. }
-  destruct (is_pending _ sid ns); rewrite Hmem by reflexivity; exact Hres.
+  unfold disc_release. destruct (is_pending _ sid ns); rewrite Hmem by reflexivity; exact Hres.
 Qed.
 
 (* a refused connection leaves every namespace with exactly the ns_members it had *)
